@@ -575,3 +575,498 @@ pub proof fn lemma_v3_connect_packet(c: Connect, rest: Seq<u8>)
     lemma_vlen_enc(c.enc().len());
     lemma_connect_roundtrip(c, rest);
 }
+
+// ===================================================================
+// C07, first half, at spec level: every strict prefix of an encoded v3 packet is Incomplete (never a value, never an error)
+// ===================================================================
+pub proof fn lemma_hdr_any(cb: u8, n: nat, x: Seq<u8>)
+    requires n < 268435456
+    ensures
+        p_raw_header(seq![cb] + enc_varint(n) + x) == PR::<(u8, u32), Error>::Ok((cb, n as u32), 1 + vlen(n)),
+        (seq![cb] + enc_varint(n) + x).skip(1 + vlen(n) as int) == x,
+{
+    let s = seq![cb] + enc_varint(n) + x;
+    lemma_vlen_enc(n);
+    assert(s[0] == cb);
+    assert(s.skip(1) =~= enc_varint(n) + x);
+    lemma_varint_roundtrip(n, x);
+    assert(s.skip(1 + vlen(n) as int) =~= x);
+}
+/// a strict prefix of the fixed header alone
+pub proof fn lemma_hdr_prefix(cb: u8, n: nat, x: Seq<u8>, k: int)
+    requires n < 268435456, 0 <= k < 1 + vlen(n)
+    ensures p_raw_header((seq![cb] + enc_varint(n) + x).take(k)) == PR::<(u8, u32), Error>::Inc
+{
+    let s = (seq![cb] + enc_varint(n) + x).take(k);
+    lemma_vlen_enc(n);
+    if k >= 1 {
+        assert(s.skip(1) =~= enc_varint(n).take(k - 1));
+        lemma_varint_prefix(n, k - 1);
+    }
+}
+/// a prefix that covers the fixed header: what is left is the same prefix of the body
+pub proof fn lemma_frame_take(cb: u8, body: Seq<u8>, k: int)
+    requires body.len() < 268435456, 1 + vlen(body.len()) <= k <= frame(cb, body).len()
+    ensures frame(cb, body).take(k) == seq![cb] + enc_varint(body.len()) + body.take(k - 1 - vlen(body.len()))
+{
+    lemma_vlen_enc(body.len());
+    assert(frame(cb, body).take(k) =~= seq![cb] + enc_varint(body.len()) + body.take(k - 1 - vlen(body.len())));
+}
+pub open spec fn is_inc<T>(p: PR<T, Error>) -> bool { p is Inc }
+
+// ---- bodies
+//@lemma props=C07
+pub proof fn lemma_pid_body_prefix(p: Pid, j: int)
+    requires 0 <= j < 2
+    ensures p3_pid(enc_u16(p.0).take(j)) == PR::<Pid, Error>::Inc
+{}
+//@lemma props=C07
+pub proof fn lemma_connack_body_prefix(c: Connack, j: int)
+    requires 0 <= j < 2
+    ensures p3_connack(seq![b2u3(c.session_present), crc_byte(c.code)].take(j)) == PR::<Connack, Error>::Inc
+{}
+pub proof fn lemma_codes_prefix(cs: Seq<SubscribeReturnCode>, j: int, rem: nat, acc: Seq<SubscribeReturnCode>, used: nat)
+    requires 0 <= j < cs.len(), rem == cs.len()
+    ensures p3_codes(enc_codes(cs).take(j), rem, acc, used) == PR::<Seq<SubscribeReturnCode>, Error>::Inc
+    decreases cs.len()
+{
+    reveal_with_fuel(p3_codes, 2);
+    let s = enc_codes(cs).take(j);
+    if j > 0 {
+        assert(s[0] == src_byte(cs[0]));
+        assert(src_of(src_byte(cs[0])) == Ok::<SubscribeReturnCode, Error>(cs[0]));
+        assert(s.skip(1) =~= enc_codes(cs.skip(1)).take(j - 1));
+        lemma_codes_prefix(cs.skip(1), j - 1, (rem - 1) as nat, acc.push(cs[0]), used + 1);
+    }
+}
+//@lemma props=C07
+pub proof fn lemma_suback_body_prefix(x: Suback, j: int)
+    requires x.pid.0 != 0, 0 <= j < x.enc().len()
+    ensures p3_suback(x.enc().take(j), x.enc().len()) == PR::<Suback, Error>::Inc
+{
+    let s = x.enc().take(j);
+    let v = x.pid.0;
+    if j >= 2 {
+        assert(s[0] == (v / 256) as u8 && s[1] == (v % 256) as u8);
+        assert(s.skip(2) =~= enc_codes(x.topics@).take(j - 2));
+        lemma_codes_prefix(x.topics@, j - 2, x.topics@.len(), Seq::empty(), 2);
+    }
+}
+//@lemma props=C07
+pub proof fn lemma_publish_body_prefix(x: Publish, h: Header, j: int)
+    requires
+        x.valid(), name_ok(x.topic_name.text()), qp_pid_ok(x.qos_pid),
+        h.remaining_len as nat == x.enc().len(), h.qos == qos_of_qp(x.qos_pid), 0 <= j < x.enc().len(),
+    ensures p3_publish(x.enc().take(j), h) == PR::<Publish, Error>::Inc
+{
+    let t = x.topic_name.text();
+    let n1 = 2 + sbytes(t).len();
+    let tail = enc_qos_pid(x.qos_pid) + x.payload@;
+    let s = x.enc().take(j);
+    assert(x.enc() =~= enc_str(t) + tail);
+    if j < n1 {
+        assert(s =~= enc_str(t).take(j));
+        lemma_str_prefix(t, j);
+    } else {
+        assert(s =~= enc_str(t) + tail.take(j - n1));
+        lemma_str_roundtrip(t, tail.take(j - n1));
+        match x.qos_pid {
+            QosPid::Level0 => {}
+            QosPid::Level1(p) => { if j >= n1 + 2 { assert(s[n1 as int] == (p.0 / 256) as u8 && s[n1 as int + 1] == (p.0 % 256) as u8); } }
+            QosPid::Level2(p) => { if j >= n1 + 2 { assert(s[n1 as int] == (p.0 / 256) as u8 && s[n1 as int + 1] == (p.0 % 256) as u8); } }
+        }
+    }
+}
+
+// ---- whole packets
+pub proof fn lemma_v3_prefix_of_frame(cb: u8, body: Seq<u8>, k: int, h: Header)
+    requires body.len() < 268435456, 0 <= k < frame(cb, body).len(),
+        header3_of(cb, body.len() as u32) == Ok::<Header, Error>(h),
+        k >= 1 + vlen(body.len()) ==> is_inc(p3_body(h, body.take(k - 1 - vlen(body.len())))),
+    ensures p3_packet(frame(cb, body).take(k)) == PR::<Packet, Error>::Inc
+{
+    let n = body.len();
+    lemma_vlen_enc(n);
+    if k < 1 + vlen(n) {
+        lemma_hdr_prefix(cb, n, body, k);
+    } else {
+        let j = k - 1 - vlen(n);
+        lemma_frame_take(cb, body, k);
+        lemma_hdr_any(cb, n, body.take(j));
+    }
+}
+//@lemma props=C07
+pub proof fn lemma_v3_bodyless_prefix(cb: u8, k: int)
+    requires 0 <= k < 2
+    ensures p3_packet(seq![cb, 0u8].take(k)) == PR::<Packet, Error>::Inc
+{
+    reveal_with_fuel(p_varint_from, 2);
+    let s = seq![cb, 0u8].take(k);
+    if k == 1 { assert(s.skip(1).len() == 0); }
+}
+//@lemma props=C07
+pub proof fn lemma_v3_pid_packet_prefix(cb: u8, x: Pid, k: int)
+    requires cb == 0x40u8 || cb == 0x50u8 || cb == 0x62u8 || cb == 0x70u8 || cb == 0xB0u8, 0 <= k < 4
+    ensures p3_packet(with_pid(cb, x).take(k)) == PR::<Packet, Error>::Inc
+{
+    reveal_with_fuel(enc_varint, 2);
+    let body = enc_u16(x.0);
+    assert(with_pid(cb, x) =~= frame(cb, body));
+    assert(vlen(2) == 1);
+    let h = Header { typ: if cb == 0x40u8 { PacketType::Puback } else if cb == 0x50u8 { PacketType::Pubrec } else if cb == 0x62u8 { PacketType::Pubrel } else if cb == 0x70u8 { PacketType::Pubcomp } else { PacketType::Unsuback },
+                     dup: false, qos: QoS::Level0, retain: false, remaining_len: 2 };
+    if k >= 2 { lemma_pid_body_prefix(x, k - 2); }
+    lemma_v3_prefix_of_frame(cb, body, k, h);
+}
+//@lemma props=C07
+pub proof fn lemma_v3_connack_packet_prefix(c: Connack, k: int)
+    requires 0 <= k < 4
+    ensures p3_packet(enc_packet3(Packet::Connack(c)).take(k)) == PR::<Packet, Error>::Inc
+{
+    reveal_with_fuel(enc_varint, 2);
+    let body = seq![b2u3(c.session_present), crc_byte(c.code)];
+    assert(enc_packet3(Packet::Connack(c)) =~= frame(0x20u8, body));
+    assert(vlen(2) == 1);
+    let h = Header { typ: PacketType::Connack, dup: false, qos: QoS::Level0, retain: false, remaining_len: 2 };
+    if k >= 2 { lemma_connack_body_prefix(c, k - 2); }
+    lemma_v3_prefix_of_frame(0x20u8, body, k, h);
+}
+//@lemma props=C07
+pub proof fn lemma_v3_publish_packet_prefix(x: Publish, k: int)
+    requires x.valid(), name_ok(x.topic_name.text()), qp_pid_ok(x.qos_pid), x.enc().len() < 268435456,
+        0 <= k < enc_packet3(Packet::Publish(x)).len()
+    ensures p3_packet(enc_packet3(Packet::Publish(x)).take(k)) == PR::<Packet, Error>::Inc
+{
+    let cb = pub_ctrl(x.dup, x.retain, x.qos_pid);
+    let rl = x.enc().len() as u32;
+    lemma_pub_ctrl_header(x.dup, x.retain, x.qos_pid, rl);
+    let h = Header { typ: PacketType::Publish, dup: x.dup, qos: qos_of_qp(x.qos_pid), retain: x.retain, remaining_len: rl };
+    let hl = 1 + vlen(x.enc().len());
+    lemma_vlen_enc(x.enc().len());
+    if k >= hl { lemma_publish_body_prefix(x, h, k - hl); }
+    lemma_v3_prefix_of_frame(cb, x.enc(), k, h);
+}
+//@lemma props=C07
+pub proof fn lemma_v3_suback_packet_prefix(x: Suback, k: int)
+    requires x.pid.0 != 0, x.enc().len() < 268435456, 0 <= k < enc_packet3(Packet::Suback(x)).len()
+    ensures p3_packet(enc_packet3(Packet::Suback(x)).take(k)) == PR::<Packet, Error>::Inc
+{
+    let rl = x.enc().len() as u32;
+    let h = Header { typ: PacketType::Suback, dup: false, qos: QoS::Level0, retain: false, remaining_len: rl };
+    let hl = 1 + vlen(x.enc().len());
+    lemma_vlen_enc(x.enc().len());
+    if k >= hl { lemma_suback_body_prefix(x, k - hl); }
+    lemma_v3_prefix_of_frame(0x90u8, x.enc(), k, h);
+}
+
+// ---- SUBSCRIBE / UNSUBSCRIBE payload lists: a strict prefix is Incomplete
+pub proof fn lemma_sub_items_prefix(items: Seq<(TopicFilter, QoS)>, j: int, acc: Seq<(TopicFilter, QoS)>, used: nat)
+    requires sub_items_ok(items), sub_items_wf(items), 0 <= j < enc_sub_items(items).len()
+    ensures p3_sub_items(enc_sub_items(items).take(j), enc_sub_items(items).len(), acc, used) == PR::<Seq<(TopicFilter, QoS)>, Error>::Inc
+    decreases items.len()
+{
+    hide(filter_ok);
+    if items.len() > 0 {
+        let tf = items[0].0; let q = items[0].1; let t = tf.text();
+        let tl = items.skip(1);
+        lemma_enc_sub_items_front(items);
+        let n1 = 2 + sbytes(t).len();
+        let tail = seq![qos_byte(q)] + enc_sub_items(tl);
+        assert(enc_sub_items(items) =~= enc_str(t) + tail);
+        let s = enc_sub_items(items).take(j);
+        if j < n1 {
+            assert(s =~= enc_str(t).take(j));
+            lemma_str_prefix(t, j);
+        } else {
+            assert(s =~= enc_str(t) + tail.take(j - n1));
+            lemma_str_roundtrip(t, tail.take(j - n1));
+            lemma_filter_of_text(tf);
+            if j == n1 {
+                assert(s.skip(n1 as int).len() == 0);
+            } else {
+                assert(s[n1 as int] == qos_byte(q));
+                assert(qos_of(qos_byte(q)) == Ok::<QoS, Error>(q));
+                lemma_sub_items_step(s, enc_sub_items(items).len(), acc, used, t, n1, tf, q);
+                assert(s.skip(n1 as int + 1) =~= enc_sub_items(tl).take(j - n1 - 1));
+                assert(sub_items_ok(tl) && sub_items_wf(tl)) by { assert forall|i: int| 0 <= i < tl.len() implies sbytes((#[trigger] tl[i]).0.text()).len() <= 65535 && tl[i].0.wf() by { assert(tl[i] == items[i + 1]); } }
+                lemma_sub_items_prefix(tl, j - n1 - 1, acc.push((tf, q)), used + n1 + 1);
+            }
+        }
+    }
+}
+//@lemma props=C07
+pub proof fn lemma_subscribe_body_prefix(x: Subscribe, j: int)
+    requires x.valid(), sub_items_wf(x.topics@), x.pid.0 != 0, x.topics@.len() > 0, 0 <= j < x.enc().len()
+    ensures p3_subscribe(x.enc().take(j), x.enc().len()) == PR::<Subscribe, Error>::Inc
+{
+    let s = x.enc().take(j);
+    let v = x.pid.0;
+    lemma_enc_sub_items_front(x.topics@);
+    if j >= 2 {
+        assert(s[0] == (v / 256) as u8 && s[1] == (v % 256) as u8);
+        assert(s.skip(2) =~= enc_sub_items(x.topics@).take(j - 2));
+        lemma_sub_items_prefix(x.topics@, j - 2, Seq::empty(), 2);
+    }
+}
+//@lemma props=C07
+pub proof fn lemma_v3_subscribe_packet_prefix(x: Subscribe, k: int)
+    requires x.valid(), sub_items_wf(x.topics@), x.pid.0 != 0, x.topics@.len() > 0, x.enc().len() < 268435456,
+        0 <= k < enc_packet3(Packet::Subscribe(x)).len()
+    ensures p3_packet(enc_packet3(Packet::Subscribe(x)).take(k)) == PR::<Packet, Error>::Inc
+{
+    let rl = x.enc().len() as u32;
+    let h = Header { typ: PacketType::Subscribe, dup: false, qos: QoS::Level0, retain: false, remaining_len: rl };
+    let hl = 1 + vlen(x.enc().len());
+    lemma_vlen_enc(x.enc().len());
+    if k >= hl { lemma_subscribe_body_prefix(x, k - hl); }
+    lemma_v3_prefix_of_frame(0x82u8, x.enc(), k, h);
+}
+pub proof fn lemma_unsub_items_prefix(items: Seq<TopicFilter>, j: int, acc: Seq<TopicFilter>, used: nat)
+    requires unsub_items_ok(items), unsub_items_wf(items), 0 <= j < enc_unsub_items(items).len()
+    ensures p3_unsub_items(enc_unsub_items(items).take(j), enc_unsub_items(items).len(), acc, used) == PR::<Seq<TopicFilter>, Error>::Inc
+    decreases items.len()
+{
+    hide(filter_ok);
+    if items.len() > 0 {
+        let tf = items[0]; let t = tf.text();
+        let tl = items.skip(1);
+        lemma_enc_unsub_items_front(items);
+        let n1 = 2 + sbytes(t).len();
+        let tail = enc_unsub_items(tl);
+        assert(enc_unsub_items(items) =~= enc_str(t) + tail);
+        let s = enc_unsub_items(items).take(j);
+        if j < n1 {
+            assert(s =~= enc_str(t).take(j));
+            lemma_str_prefix(t, j);
+        } else {
+            assert(s =~= enc_str(t) + tail.take(j - n1));
+            lemma_str_roundtrip(t, tail.take(j - n1));
+            lemma_filter_of_text(tf);
+            assert(s.skip(n1 as int) =~= tail.take(j - n1));
+            assert(unsub_items_ok(tl) && unsub_items_wf(tl)) by { assert forall|i: int| 0 <= i < tl.len() implies sbytes((#[trigger] tl[i]).text()).len() <= 65535 && tl[i].wf() by { assert(tl[i] == items[i + 1]); } }
+            lemma_unsub_items_prefix(tl, j - n1, acc.push(tf), used + n1);
+        }
+    }
+}
+//@lemma props=C07
+pub proof fn lemma_unsubscribe_body_prefix(x: Unsubscribe, j: int)
+    requires x.valid(), unsub_items_wf(x.topics@), x.pid.0 != 0, x.topics@.len() > 0, 0 <= j < x.enc().len()
+    ensures p3_unsubscribe(x.enc().take(j), x.enc().len()) == PR::<Unsubscribe, Error>::Inc
+{
+    let s = x.enc().take(j);
+    let v = x.pid.0;
+    lemma_enc_unsub_items_front(x.topics@);
+    if j >= 2 {
+        assert(s[0] == (v / 256) as u8 && s[1] == (v % 256) as u8);
+        assert(s.skip(2) =~= enc_unsub_items(x.topics@).take(j - 2));
+        lemma_unsub_items_prefix(x.topics@, j - 2, Seq::empty(), 2);
+    }
+}
+//@lemma props=C07
+pub proof fn lemma_v3_unsubscribe_packet_prefix(x: Unsubscribe, k: int)
+    requires x.valid(), unsub_items_wf(x.topics@), x.pid.0 != 0, x.topics@.len() > 0, x.enc().len() < 268435456,
+        0 <= k < enc_packet3(Packet::Unsubscribe(x)).len()
+    ensures p3_packet(enc_packet3(Packet::Unsubscribe(x)).take(k)) == PR::<Packet, Error>::Inc
+{
+    let rl = x.enc().len() as u32;
+    let h = Header { typ: PacketType::Unsubscribe, dup: false, qos: QoS::Level0, retain: false, remaining_len: rl };
+    let hl = 1 + vlen(x.enc().len());
+    lemma_vlen_enc(x.enc().len());
+    if k >= hl { lemma_unsubscribe_body_prefix(x, k - hl); }
+    lemma_v3_prefix_of_frame(0xA2u8, x.enc(), k, h);
+}
+
+// ---- CONNECT: a strict prefix is Incomplete
+pub proof fn lemma_take_cat(a: Seq<u8>, b: Seq<u8>, j: int)
+    requires 0 <= j <= a.len() + b.len()
+    ensures (a + b).take(j) == (if j <= a.len() { a.take(j) } else { a + b.take(j - a.len()) })
+{
+    if j <= a.len() { assert((a + b).take(j) =~= a.take(j)); } else { assert((a + b).take(j) =~= a + b.take(j - a.len())); }
+}
+pub proof fn lemma_protocol_prefix(p: Protocol, j: int)
+    requires 0 <= j < p.enc().len()
+    ensures p_protocol(p.enc().take(j)) == PR::<Protocol, Error>::Inc
+{
+    let nm = proto_name(p);
+    assert(name_mqisdp().len() == 6 && name_mqtt().len() == 4);
+    let lv = seq![proto_level(p)];
+    lemma_take_cat(enc_bin(nm), lv, j);
+    if j < 2 + nm.len() {
+        lemma_bin_prefix(nm, j);
+    } else {
+        assert(lv.take(0) =~= Seq::<u8>::empty());
+        lemma_bin_roundtrip(nm, Seq::<u8>::empty());
+        assert((enc_bin(nm) + Seq::<u8>::empty()).skip(2 + nm.len() as int).len() == 0);
+    }
+}
+pub proof fn lemma_will_prefix(w: LastWill, flags: u8, j: int)
+    requires w.valid(), flags & 0b100 != 0, 0 <= j < w.enc().len()
+    ensures p3_will(w.enc().take(j), flags) == PR::<Option<LastWill>, Error>::Inc
+{
+    let t = w.topic_name.text();
+    let n1 = 2 + sbytes(t).len();
+    let m = enc_bin(w.message@);
+    lemma_take_cat(enc_str(t), m, j);
+    if j < n1 {
+        lemma_str_prefix(t, j);
+    } else {
+        if j == n1 { assert(enc_str(t).take(j) =~= enc_str(t) + m.take(0)); }
+        assert(w.enc().take(j) == enc_str(t) + m.take(j - n1));
+        lemma_str_roundtrip(t, m.take(j - n1));
+        lemma_skip_concat(enc_str(t), m.take(j - n1));
+        lemma_bin_prefix(w.message@, j - n1);
+    }
+}
+pub proof fn lemma_opt_str_prefix(o: Option<Arc<String>>, j: int)
+    requires o is Some, opt_str_ok(o), 0 <= j < enc_opt_str(o).len()
+    ensures p3_opt_str(enc_opt_str(o).take(j), true) == PR::<Option<Arc<String>>, Error>::Inc
+{
+    lemma_str_prefix(o->Some_0@, j);
+}
+pub proof fn lemma_opt_bin_prefix(o: Option<Bytes>, j: int)
+    requires o is Some, opt_bin_ok(o), 0 <= j < enc_opt_bin(o).len()
+    ensures p3_opt_bin(enc_opt_bin(o).take(j), true) == PR::<Option<Bytes>, Error>::Inc
+{
+    lemma_bin_prefix(o->Some_0@, j);
+}
+/// unfolding of p3_connect_body up to the first Incomplete stage (each earlier stage's result is a hypothesis)
+pub proof fn lemma_connect_body_inc1(s: Seq<u8>, protocol: Protocol)
+    requires protocol != Protocol::V500, s.len() >= 3, s[0] & 1 == 0, p_str(s.skip(3)) is Inc
+    ensures p3_connect_body(s, protocol) == PR::<Connect, Error>::Inc
+{ hide(p3_will); hide(p3_opt_str); hide(p3_opt_bin); hide(p_str); }
+pub proof fn lemma_connect_body_inc2(s: Seq<u8>, protocol: Protocol, cid: Seq<char>, n1: nat)
+    requires protocol != Protocol::V500, s.len() >= 3, s[0] & 1 == 0, p_str(s.skip(3)) == PR::<Seq<char>, Error>::Ok(cid, n1),
+        p3_will(s.skip(3 + n1 as int), s[0]) is Inc
+    ensures p3_connect_body(s, protocol) == PR::<Connect, Error>::Inc
+{ hide(p3_will); hide(p3_opt_str); hide(p3_opt_bin); hide(p_str); }
+pub proof fn lemma_connect_body_inc3(s: Seq<u8>, protocol: Protocol, cid: Seq<char>, n1: nat, will: Option<LastWill>, n2: nat)
+    requires protocol != Protocol::V500, s.len() >= 3, s[0] & 1 == 0, p_str(s.skip(3)) == PR::<Seq<char>, Error>::Ok(cid, n1),
+        p3_will(s.skip(3 + n1 as int), s[0]) == PR::<Option<LastWill>, Error>::Ok(will, n2),
+        p3_opt_str(s.skip(3 + n1 as int + n2 as int), s[0] & 0b10000000 != 0) is Inc
+    ensures p3_connect_body(s, protocol) == PR::<Connect, Error>::Inc
+{ hide(p3_will); hide(p3_opt_str); hide(p3_opt_bin); hide(p_str); }
+pub proof fn lemma_connect_body_inc4(s: Seq<u8>, protocol: Protocol, cid: Seq<char>, n1: nat, will: Option<LastWill>, n2: nat, user: Option<Arc<String>>, n3: nat)
+    requires protocol != Protocol::V500, s.len() >= 3, s[0] & 1 == 0, p_str(s.skip(3)) == PR::<Seq<char>, Error>::Ok(cid, n1),
+        p3_will(s.skip(3 + n1 as int), s[0]) == PR::<Option<LastWill>, Error>::Ok(will, n2),
+        p3_opt_str(s.skip(3 + n1 as int + n2 as int), s[0] & 0b10000000 != 0) == PR::<Option<Arc<String>>, Error>::Ok(user, n3),
+        p3_opt_bin(s.skip(3 + n1 as int + n2 as int + n3 as int), s[0] & 0b01000000 != 0) is Inc
+    ensures p3_connect_body(s, protocol) == PR::<Connect, Error>::Inc
+{ hide(p3_will); hide(p3_opt_str); hide(p3_opt_bin); hide(p_str); }
+pub proof fn lemma_connect_body_prefix(c: Connect, j: int)
+    requires connect_wf3(c),
+        0 <= j < (seq![connect_flags3(c)] + enc_u16(c.keep_alive) + enc_str(c.client_id@) + enc_will3(c) + enc_opt_str(c.username) + enc_opt_bin(c.password)).len()
+    ensures ({
+        let body = seq![connect_flags3(c)] + enc_u16(c.keep_alive) + enc_str(c.client_id@) + enc_will3(c) + enc_opt_str(c.username) + enc_opt_bin(c.password);
+        p3_connect_body(body.take(j), c.protocol) == PR::<Connect, Error>::Inc
+    })
+{
+    hide(connect_flags3); hide(p3_will); hide(p3_opt_str); hide(p3_opt_bin); hide(name_ok); hide(p_str); hide(p_bin); hide(p3_connect_body);
+    let f = connect_flags3(c);
+    lemma_connect_flags3(c);
+    let pa = seq![f]; let pb = enc_u16(c.keep_alive); let pc = enc_str(c.client_id@); let pd = enc_will3(c); let pe = enc_opt_str(c.username); let pf = enc_opt_bin(c.password);
+    let e = Seq::<u8>::empty();
+    let t4 = pf + e; let t3 = pe + t4; let t2 = pd + t3; let t1 = pc + t2;
+    let hd = pa + pb;
+    let body = pa + pb + pc + pd + pe + pf;
+    lemma_nest7(pa, pb, pc, pd, pe, pf, e);
+    assert(body + e =~= body);
+    assert(body == hd + t1);
+    assert(hd.len() == 3);
+    assert(t4 =~= pf);
+    let s = body.take(j);
+    lemma_take_cat(hd, t1, j);
+    if j < 3 {
+        if j >= 1 { assert(s[0] == f); }
+        assert(p3_connect_body(s, c.protocol) == PR::<Connect, Error>::Inc) by { reveal(p3_connect_body); }
+    } else {
+        let j1 = j - 3;
+        assert(s == hd + t1.take(j1)) by { if j == 3 { assert(hd.take(3) =~= hd + t1.take(0)); } }
+        assert(s[0] == f) by { assert(hd[0] == f); }
+        lemma_skip_concat(hd, t1.take(j1));
+        assert(s.skip(3) == t1.take(j1));
+        let n1 = pc.len();
+        assert(n1 == 2 + sbytes(c.client_id@).len());
+        lemma_take_cat(pc, t2, j1);
+        if j1 < n1 {
+            lemma_str_prefix(c.client_id@, j1);
+            lemma_connect_body_inc1(s, c.protocol);
+        } else {
+            let j2 = j1 - n1;
+            assert(t1.take(j1) == pc + t2.take(j2)) by { if j1 == n1 { assert(pc.take(n1 as int) =~= pc + t2.take(0)); } }
+            lemma_str_roundtrip(c.client_id@, t2.take(j2));
+            lemma_skip_concat(pc, t2.take(j2));
+            lemma_skip_skip(s, 3, n1 as int);
+            assert(s.skip(3 + n1 as int) == t2.take(j2));
+            let n2 = pd.len();
+            lemma_take_cat(pd, t3, j2);
+            if j2 < n2 {
+                // inside the will (so there is one)
+                let w = c.last_will->Some_0;
+                lemma_will_prefix(w, f, j2);
+                lemma_connect_body_inc2(s, c.protocol, c.client_id@, n1);
+            } else {
+                let j3 = j2 - n2;
+                assert(t2.take(j2) == pd + t3.take(j3)) by { if j2 == n2 { assert(pd.take(n2 as int) =~= pd + t3.take(0)); } }
+                match c.last_will {
+                    Some(w) => { lemma_will_roundtrip(w, f, t3.take(j3)); }
+                    None => { assert(pd + t3.take(j3) =~= t3.take(j3)); assert(p3_will(t3.take(j3), f) == PR::<Option<LastWill>, Error>::Ok(None, 0)) by { reveal(p3_will); } }
+                }
+                assert(p3_will(t2.take(j2), f) == PR::<Option<LastWill>, Error>::Ok(c.last_will, n2));
+                lemma_skip_concat(pd, t3.take(j3));
+                lemma_skip_skip(s, 3 + n1 as int, n2 as int);
+                assert(s.skip(3 + n1 as int + n2 as int) == t3.take(j3));
+                let n3 = pe.len();
+                lemma_take_cat(pe, t4, j3);
+                if j3 < n3 {
+                    lemma_opt_str_prefix(c.username, j3);
+                    lemma_connect_body_inc3(s, c.protocol, c.client_id@, n1, c.last_will, n2);
+                } else {
+                    let j4 = j3 - n3;
+                    assert(t3.take(j3) == pe + t4.take(j4)) by { if j3 == n3 { assert(pe.take(n3 as int) =~= pe + t4.take(0)); } }
+                    lemma_opt_str_roundtrip(c.username, t4.take(j4));
+                    lemma_skip_concat(pe, t4.take(j4));
+                    lemma_skip_skip(s, 3 + n1 as int + n2 as int, n3 as int);
+                    assert(s.skip(3 + n1 as int + n2 as int + n3 as int) == t4.take(j4));
+                    // j < |body| leaves a strict prefix of the password
+                    assert(j4 < pf.len());
+                    assert(t4.take(j4) =~= pf.take(j4));
+                    lemma_opt_bin_prefix(c.password, j4);
+                    lemma_connect_body_inc4(s, c.protocol, c.client_id@, n1, c.last_will, n2, c.username, n3);
+                }
+            }
+        }
+    }
+}
+//@lemma props=C07
+pub proof fn lemma_connect_prefix(c: Connect, j: int)
+    requires connect_wf3(c), 0 <= j < c.enc().len()
+    ensures p3_connect(c.enc().take(j)) == PR::<Connect, Error>::Inc
+{
+    hide(p3_connect_body); hide(connect_flags3); hide(p_protocol);
+    let body = seq![connect_flags3(c)] + enc_u16(c.keep_alive) + enc_str(c.client_id@) + enc_will3(c) + enc_opt_str(c.username) + enc_opt_bin(c.password);
+    let pe = c.protocol.enc();
+    assert(c.enc() =~= pe + body);
+    lemma_take_cat(pe, body, j);
+    if j < pe.len() {
+        lemma_protocol_prefix(c.protocol, j);
+    } else {
+        let jb = j - pe.len();
+        assert(c.enc().take(j) == pe + body.take(jb)) by { if j == pe.len() { assert(pe.take(j) =~= pe + body.take(0)); } }
+        lemma_protocol_roundtrip(c.protocol, body.take(jb));
+        lemma_skip_concat(pe, body.take(jb));
+        lemma_connect_body_prefix(c, jb);
+    }
+}
+//@lemma props=C07
+pub proof fn lemma_v3_connect_packet_prefix(c: Connect, k: int)
+    requires connect_wf3(c), c.enc().len() < 268435456, 0 <= k < enc_packet3(Packet::Connect(c)).len()
+    ensures p3_packet(enc_packet3(Packet::Connect(c)).take(k)) == PR::<Packet, Error>::Inc
+{
+    hide(p3_connect); hide(connect_flags3);
+    let rl = c.enc().len() as u32;
+    let h = Header { typ: PacketType::Connect, dup: false, qos: QoS::Level0, retain: false, remaining_len: rl };
+    let hl = 1 + vlen(c.enc().len());
+    lemma_vlen_enc(c.enc().len());
+    if k >= hl { lemma_connect_prefix(c, k - hl); }
+    lemma_v3_prefix_of_frame(0x10u8, c.enc(), k, h);
+}
